@@ -101,6 +101,8 @@ type Link struct {
 	Unrel *Link
 	// deadAt: when Sever was called (unix nanoseconds), 0 while alive
 	deadAt int64
+	// cliDoneAt: when the client called Close (unix nanoseconds), 0 before
+	cliDoneAt int64
 
 	// write stall (a peer that has stopped reading: back-pressure): client writes block while stalled
 	stallMu sync.Mutex
@@ -168,6 +170,15 @@ func (l *Link) CloseGracefully() {
 // DeadAt returns the moment the link was severed (zero time while alive).
 func (l *Link) DeadAt() time.Time {
 	n := atomic.LoadInt64(&l.deadAt)
+	if n == 0 {
+		return time.Time{}
+	}
+	return time.Unix(0, n)
+}
+
+// ClientClosedAt returns the moment the client closed its end (zero time before).
+func (l *Link) ClientClosedAt() time.Time {
+	n := atomic.LoadInt64(&l.cliDoneAt)
 	if n == 0 {
 		return time.Time{}
 	}
@@ -245,6 +256,7 @@ func (c *clientEnd) Write(b []byte) error {
 func (c *clientEnd) Close() error {
 	atomic.StoreInt32(&c.closed, 1)
 	c.l.conce.Do(func() {
+		atomic.StoreInt64(&c.l.cliDoneAt, time.Now().UnixNano())
 		close(c.l.cliDone)
 		c.l.toBrk.close(false) // the broker still sees what was written before Close (e.g. Disconnect)
 	})
